@@ -121,6 +121,13 @@ func (x *Exec) evalIdent(s *State, id *ast.Ident) *Term {
 			pv, srt := x.u.ptrVar(o.Type())
 			return withType(Select(x.getSt(s, pv, arraySort(SRef, srt)), v), o.Type())
 		}
+		if bi, ok := x.borrow[v.String()]; ok && len(x.borrow) > 0 {
+			// reading a scanner token: no Scan on that scanner may have happened since Bytes() returned it
+			x.nBorrow++
+			pos := x.u.Fset.Position(id.Pos())
+			x.oblige(s, "borrow", fmt.Sprintf("%s.%d", id.Name, x.nBorrow), Eq(Select(x.getSt(s, "scgen", arraySort(SRef, SInt)), bi.scanner), bi.gen),
+				"the bytes returned by Scanner.Bytes are valid only until the next Scan: "+id.Name+" is read after a later Scan", fmt.Sprintf("%s:%d", x.fi.File, pos.Line))
+		}
 		return withType(v, o.Type())
 	case *types.Func:
 		return V("fn."+x.u.funcName(o), SFn)
